@@ -71,6 +71,24 @@ def work(part, n):
                     f"barrier_ok {deps} {trace_term(r['events'])} && events_ok {pairs_term(nt)} {trace_term(r['events'])}")
             part.case("schedule", {"expr": expr, "desc": desc,
                                    "show": f"(is_topo_order {cnatlist(nodes)} {pairs_term(edges)} {cnatlist(order)}, barrier_ok {deps} {trace_term(r['events'])})"})
+            # K(c): the real visit_nodes / visit_node_generations on the DAG with a random set of nodes marked
+            # "computed" (what resume does) against Model.Events.visit_nodes / visit_generations
+            from cubed.runtime.pipeline import visit_node_generations, visit_nodes
+            d2 = dag.copy()
+            computed = []
+            for nme, nd in d2.nodes(data=True):
+                flag = nd.get("pipeline") is None or (nme != "create-arrays" and part.rng.random() < 0.4)
+                nd["computed"] = flag
+                if flag:
+                    computed.append(node_id(nme))
+            vn = [node_id(nme) for nme, _ in visit_nodes(d2)]
+            vg = [sorted(node_id(nme) for nme, _ in g) for g in visit_node_generations(d2)]
+            skipf = f"(fun n => mem_nat n {cnatlist(computed)})"
+            gens_sorted = [sorted(g) for g in gens]
+            part.case("visit", {"expr": f"natlist_eqb (visit_nodes {skipf} {cnatlist(order)}) {cnatlist(vn)} && "
+                                        f"natlist2_eqb (map sort_nat (visit_generations {skipf} {cnatlist2(gens_sorted)})) {cnatlist2(vg)}",
+                                "desc": {**desc, "computed": computed},
+                                "show": f"(visit_nodes {skipf} {cnatlist(order)}, visit_generations {skipf} {cnatlist2(gens_sorted)})"})
             npipe = len(r["ops"])
             part.count("executor:" + exname)
             part.count("parallel-arrays" if kw.get("compute_arrays_in_parallel") else "sequential-arrays")
@@ -103,12 +121,82 @@ def work(part, n):
                 shutil.rmtree(tmp, ignore_errors=True)
 
 
+def resume_parallel(ctx):
+    """Interrupted run, then resume on the threads executor with compute_arrays_in_parallel: same store-level oracle."""
+    import random
+
+    from cubed.runtime.create import create_executor
+
+    from harness.adv_executor import AdvExecutor
+    from harness.obs import Built
+    from harness.tracing_store import CrashNow
+
+    done = 0
+    tries = 0
+    while done < ctx.n(12, 120) and tries < 400:
+        tries += 1
+        prog = G.gen_program(ctx.rng, nstmts=ctx.rng.randint(3, 6), allow_zero=False, maxlen=7)
+        try:
+            b = Built(prog)
+            ref = b.compute(AdvExecutor(), optimize_graph=False)
+        except Exception:
+            continue
+        T = len(b.task_observations()[1])
+        if T < 4:
+            continue
+        at = ctx.rng.randint(1, T - 1)
+        b.clear()
+        try:
+            b.compute(AdvExecutor(crash_after_tasks=at), optimize_graph=False)
+        except CrashNow:
+            pass
+        except Exception:
+            continue
+        b.trace.clear()
+        lat = random.Random(ctx.rng.getrandbits(32))
+        b.trace.latency = lambda kind, key: (lat.random() * 0.004 if kind == "set" and is_chunk_key(key) else 0)
+        desc = {"prog": prog, "crash_after_tasks": at, "resume": "threads + compute_arrays_in_parallel"}
+        ctx.evaluations += 1
+        try:
+            res = b.compute(create_executor("threads"), optimize_graph=False, resume=True) if False else None
+            import cubed
+            res = cubed.compute(*b.outs, executor=create_executor("threads"), optimize_graph=False, resume=True,
+                                compute_arrays_in_parallel=True)
+        except NotImplementedError:
+            ctx.count("resume-refused")
+            continue
+        except Exception as e:
+            ctx.fail("resume-parallel-failed", f"{type(e).__name__}: {e}", desc)
+            continue
+        done += 1
+        ctx.count("resume-parallel-runs")
+        ctx.nt(desc)
+        last_set, first_get = {}, {}
+        for (_, kind, key, info, task, t0, t1) in b.trace.events:
+            a = array_of(key)
+            if kind == "set" and is_chunk_key(key):
+                last_set[a] = max(last_set.get(a, 0), t1)
+            elif kind == "get" and is_chunk_key(key):
+                first_get[a] = min(first_get.get(a, t0), t0)
+                if str(info) == "miss":
+                    ctx.fail("chunk-read-missed", f"resumed parallel run: read of {key} fell back to the fill value", desc)
+        for a, tg in first_get.items():
+            if a in last_set and tg < last_set[a]:
+                ctx.fail("read-before-last-write", f"resumed parallel run: a chunk of {a} was read before its last chunk write ended", desc)
+        import numpy as np
+        for r0, r1 in zip(ref, res):
+            if not (np.asarray(r0).shape == np.asarray(r1).shape and np.array_equal(np.asarray(r0), np.asarray(r1), equal_nan=True)):
+                ctx.fail("resume-parallel-result-differs", "resumed parallel run gives a different result", desc)
+
+
 def run(ctx):
     warnings.filterwarnings("ignore")
     N = ctx.n(96, 2400)
     per = 8
     cases = pmap(ctx, work, [per] * (N // per), procs=12)
     ctx.corr("schedule_and_barrier", "Model.Util Model.Events", cases.get("schedule", []), chunk=150)
+    ctx.corr("visit_nodes_with_computed_flags", "Model.Util Model.Events Model.DagObs", cases.get("visit", []), chunk=150)
+    resume_parallel(ctx)
 
 
 def search(ctx):
